@@ -223,6 +223,29 @@ func (f *Frame) exec(instr ssa.Instruction, g *Term) {
 			f.env[in] = RefV{[]RefAlt{{x.arr.alts[0].c, view}}}
 			break
 		}
+		if x.off.IsConst() && len(x.arr.alts) > 1 {
+			// several possible backing arrays (a slice picked symbolically from a pool): one view per alternative
+			var alts []RefAlt
+			okAll := true
+			for _, al := range x.arr.alts {
+				c, ok := al.o.(*Cell)
+				if !ok || c == nil {
+					continue // nil backing array: excluded by the length VC above (alen > 0)
+				}
+				if int64(x.off.val)+alen > int64(len(c.elems)) {
+					continue // too short for this alternative: excluded by the length VC
+				}
+				if x.off.val == 0 && int64(len(c.elems)) == alen {
+					alts = append(alts, RefAlt{al.c, c})
+				} else {
+					alts = append(alts, RefAlt{al.c, &Cell{id: nextID(), typ: in.Type().(*types.Pointer).Elem(), elems: c.elems[x.off.val : x.off.val+uint64(alen)]}})
+				}
+			}
+			if okAll && len(alts) > 0 && alen > 0 {
+				f.env[in] = RefV{alts}
+				break
+			}
+		}
 		panic(unsupported("SliceToArrayPointer on symbolic slice"))
 	default:
 		panic(unsupported(fmt.Sprintf("instruction %T at %s", instr, e.pos(instr.Pos()))))
